@@ -256,6 +256,9 @@ class SpecCtx:
         """package variable of a dependency, by the last element of its import path"""
         st = self.entry if self.in_old else self.st
         for path in self.eng.ir.dep_alias.get(alias, []):
+            c = self.eng.ir.consts.get(path + "." + n)
+            if c is not None:
+                return self.tag(self.eng.const(st, {"t": c["type"], "n": "int" if isinstance(c["v"], str) and c["v"].lstrip("-").isdigit() else ("bool" if isinstance(c["v"], bool) else "string"), "v": c["v"]}), c["type"])
             gname = path + "." + n
             if gname not in self.eng.global_types and gname in self.eng.ir.dep_vars:
                 self.eng.global_types[gname] = self.eng.ir.dep_vars[gname]
@@ -269,6 +272,11 @@ class SpecCtx:
         name = a[2]
         if isinstance(base, tuple) and base and base[0] == "pkg":
             v = self.pkgmember(base[1], name)
+            if v is None:
+                # an in-repo package may share its name with a dependency it imports (transport/graphsync vs go-graphsync)
+                al = a[1][1] if a[1][0] == "id" else None
+                if al:
+                    v = self.dep_member(al, name)
             if v is None:
                 raise SpecError("no member %s in %s" % (name, base[1]))
             return v
@@ -329,6 +337,8 @@ class SpecCtx:
             e = self.eq(x, y)
             return e if op == "==" else z3.Not(e)
         x, y = to_int(x), to_int(y)
+        if op == "+" and is_z3(x) and x.sort() == Str:
+            return uf("strcat", [Str, Str], Str)(x, y)
         if op == "+":
             return x + y
         if op == "-":
@@ -539,6 +549,11 @@ class SpecCtx:
             if n == "min":
                 x, y = to_int(self.eval(args[0])), to_int(self.eval(args[1]))
                 return z3.If(x < y, x, y)
+            if n == "visited":
+                vk = st.ghost.get("last_visited")
+                if vk is None or vk not in st.ghost:
+                    return z3.BoolVal(False)
+                return self.eng.visited_pred(st, vk, self.eval(args[0]))
             if n == "backoffAttempts":
                 from .models import _bk_key
                 pv = self.eval(args[0])
